@@ -32,6 +32,7 @@ type boundedSpec struct {
 
 type boundedResult struct {
 	Spec   boundedSpec
+	Known  string // the test's BOUNDED-KNOWN line: instances of a recorded known finding (wrong in exactly the recorded way)
 	OK     bool
 	Cases  int
 	Output string
@@ -96,6 +97,7 @@ func runBounded(s boundedSpec, tier string, seed int, scratch string) boundedRes
 		res.Output = res.Output[:4000]
 	}
 	res.WallS = time.Since(t0).Seconds()
+	res.Known = firstLines(grepLine(res.Output, "BOUNDED-KNOWN"), 1)
 	if m := casesRe.FindStringSubmatch(res.Output); m != nil && !strings.Contains(res.Output, "BOUNDED-FAIL") && strings.Contains(res.Output, "\nok ") {
 		res.OK = true
 		res.Cases, _ = strconv.Atoi(m[1])
